@@ -29,3 +29,14 @@ func verifRoundTripAddressMapArray(w0 io.Writer, r0 io.Reader, x AddressMapArray
 	decErr = y.Decode(r0)
 	return y, nil, decErr
 }
+
+func verifRoundTripSparseSigs(w0 io.Writer, r0 io.Reader, x []Sig) (y []Sig, encErr, decErr error) {
+	encErr = EncodeSparseSigs(w0, x)
+	if encErr != nil {
+		return nil, encErr, nil
+	}
+	verifLink(w0, r0)
+	y = make([]Sig, len(x))
+	decErr = DecodeSparseSigs(r0, &y)
+	return y, nil, decErr
+}
